@@ -10,6 +10,12 @@ Observables: message class, whether the command quit, whether a following :q is 
 Oracle (the property, in Python, independent of the model): no clobbering without `!`; success =>
 file is exactly the lines; a consumed error => failure reported, no quit, dirty buffer stays dirty;
 a forced retry succeeds.
+
+Guard stream (no faults; see the comment above GN): editor sessions over regular files, symbolic links, chains,
+dangling links and a link loop, with a foreign writer run from inside the session between the editor's last
+read / :w and the command under test (w, w!, wq, x, xa, wq!, xa!, :w of other names), fixed time stamps set with
+`touch -d`; oracle on snapshots taken inside the session (stat -L, contents, directory copy); model = request
+`gs` of the driver (coq/IoLinkDefs.v).
 """
 import json, os, shutil, subprocess, time
 import vlib
@@ -17,7 +23,9 @@ import vlib
 GROUP = 'io'
 TRUSTED = ['harness/faultshim.c (LD_PRELOAD interposer: counts and fails open/write/close on the target path only; stat, read, ftruncate healthy)',
            'finite fault schedules: after the listed outcomes every call succeeds; a write(2) returning 0 for ever is excluded',
-           'file time stamps are set with utime(2) to whole seconds in the past; `!touch` makes the own file newer']
+           'file time stamps are set with utime(2) to whole seconds in the past; `!touch` makes the own file newer',
+           'guard stream: coreutils sh / printf / mv / rm / touch -d / stat -L / cp -P run from inside the session (`:w !sh script`) as foreign writer and snapshot taker; '
+           'stamps called newer lie 5000 s in the future, i.e. later than anything the editor writes during the run']
 
 S1, S2, ALIVE = b'C03qS1zMARK', b'C03qS2zMARK', b'C03qALIVEzMARK'
 ERRNOS = {'ENOSPC': 28, 'EIO': 5, 'EINTR': 4}
@@ -812,7 +820,8 @@ def run(ctx):
     model = ctx.model('io')
     res.rule = ('one evaluation = one (command, buffer size, dirty?, target state, fault) run of the real editor under the shim; faults = every call index of the '
                 'dry-run sequence x {ENOSPC, EIO, EINTR, short 1, short n-1}, plus 2-5 consecutive faults inside one write batch (short counts then errors); '
-                'cases = single commands, multi-command histories (writes to another path / range / filter before the guarded write), two buffers; non-trivial = a fault was injected and consumed, or a guard case; distinct = distinct (case, fault)')
+                'cases = single commands, multi-command histories (writes to another path / range / filter before the guarded write), two buffers; non-trivial = a fault was injected and consumed, or a guard case; distinct = distinct (case, fault).  '
+                'Guard stream: one evaluation = one editor session (name layout x foreign operations between the last read / :w and the command x command), all non-trivial')
     work = []          # (case, sched)
     gwork = []         # cases of the guard stream (no faults)
     if ctx.replay:
